@@ -310,7 +310,7 @@ namespace io {
                     if (bzerror != BZ_OK) {
                         throw bzip2_error{"get unused failed", bzerror};
                     }
-                    if (num_unused != 0) {
+                    if (num_unused != 0 || fgetc(m_file) != EOF) {      // X5: the probed byte is never pushed back
                         ::BZ2_bzReadClose(&bzerror, m_bzfile);
                         if (bzerror != BZ_OK) {
                             throw bzip2_error{"read close failed", bzerror};
